@@ -1,7 +1,7 @@
 (* Obligation C18/branch_iff_tdelta_nonneg.  Statement as printed by Coq from Inferno.C18.DelayAdjProofs; proof by reference.
    This file contains nothing else, so the statement cannot be weakened quietly. *)
 From Coq Require Import List ZArith Bool Reals Lra Lia.
-From Inferno Require Import Base.Num Base.NumR Gen.Stdkernels C18.DelayAdj C18.DelayAdjProofs.
+From Inferno Require Import Base.Num Base.NumR Gen.Stdkernels C18.DelayAdj C18.EventProofs C18.DelayAdjProofs.
 Import ListNotations.
 Open Scope R_scope.
 Theorem branch_iff_tdelta_nonneg : forall (td : T RN) (lr tc : R),
